@@ -96,12 +96,19 @@ class DependencyBuilder:
     ) -> Dependencies:
         results = Dependencies()
         for dependant in dependant_types:
-            if isinstance(dependant, pydsdl.UnionType):
+            if cls._defines_union(dependant):
                 # Unions always require integer for the tag field.
                 results.uses_integer = True
                 results.uses_union = True
             cls._extract_dependent_types(cls._extract_data_types(dependant), transitive, results)
         return results
+
+    @classmethod
+    def _defines_union(cls, t: pydsdl.CompositeType) -> bool:
+        # A union may be wrapped in a delimited type, and a service defines its request and its response.
+        if isinstance(t, pydsdl.ServiceType):
+            return cls._defines_union(t.request_type) or cls._defines_union(t.response_type)
+        return isinstance(t, pydsdl.UnionType) or isinstance(getattr(t, "inner_type", None), pydsdl.UnionType)
 
     @classmethod
     def _extract_data_types(cls, t: pydsdl.CompositeType) -> typing.List[pydsdl.SerializableType]:
